@@ -214,6 +214,34 @@ func runC14(r *Run, p *Prog) {
 		r.Guard("L4", func() {
 			ok, w := mustCross(T, sf.Fn, nil, isAccept, nil, func(fs []Fact) bool { return m.runningFact(fs, true) })
 			r.Ob("L4", fn, "every path from entry to Accept has seen running == true", sf.Accept.Pos(), ok, "Accept can be reached without testing the running flag", witnessPos(p, w)...)
+			// ... and the function itself has marked the service as running on the way there (otherwise the loop is left
+			// at once and nothing is ever accepted, or a Shutdown issued before the mark is lost)
+			{
+				okSet, w0 := everyPathPasses(sf.Fn, nil, isAccept, func(in ssa.Instruction) bool {
+					st, isSt := in.(*ssa.Store)
+					if !isSt || !isStoreToServiceField(in, svcF.Running) {
+						return false
+					}
+					vt := T.T(st.Val)
+					return vt == "const:true" || svcF.RunningVal != "" && vt == svcF.RunningVal
+				})
+				r.Ob("L4", fn, "the serving function marks the service as running before its first Accept", sf.Accept.Pos(), okSet,
+					"Accept can be reached (or the loop left) without the running mark having been set by this call: the loop condition fails at once and the service never accepts", witnessPos(p, w0)...)
+			}
+			// a serving function that does not create the listener itself accepts only on a listener it has tested
+			{
+				creates := false
+				for _, cs := range callsIn(sf.Fn, false) {
+					if nm := calleeName(cs.Common); strings.HasPrefix(nm, "net.Listen") || nm == "net.ListenConfig.Listen" || nm == "net.FileListener" {
+						creates = true
+					}
+				}
+				if ac := sf.Accept; ac != nil && !creates && ac.Call.IsInvoke() {
+					lt := T.T(ac.Call.Value)
+					r.Ob("L4", fn, "Accept is called on a listener that was tested against nil", sf.Accept.Pos(), hasFact(T.FactsAt(ac.Block()), "NE", lt, "nil"),
+						"the serving function accepts on "+strip(lt)+" without having established that it is set (a flipped or missing `no listener` test): serving without a prior Bind dereferences nil, or a bound service is refused")
+				}
+			}
 			ok, w = mustCross(T, sf.Fn, sf.Go, isAccept, nil, func(fs []Fact) bool { return m.runningFact(fs, true) })
 			r.Ob("L4", fn, "after starting a handler the loop re-tests running before the next Accept", sf.Go.Pos(), ok,
 				"after a successful accept the loop goes back to Accept without re-testing the running flag", witnessPos(p, w)...)
